@@ -178,6 +178,7 @@ type Exec struct {
 	frame             *frameInfo // what the contract under verification allows the body to change (nil: no frame checking)
 	lastFieldWhole    map[string]bool // heap fields assigned as a whole (not only element-wise) in the last scanned loop body
 	lastWholeAssigned map[types.Object]bool // variables assigned as a whole (not only element-wise) in the last scanned loop body
+	noBirth           int // > 0 while an axiom / recursive definition is being translated
 	paramAlias        map[string]*types.Var // contract parameter name -> parameter object (parameters bind by position)
 	decoderFn         *types.Func
 	decoderTarget     string // set by callFunc for a library decoder whose target is a blank private object (escape.go)
@@ -396,7 +397,9 @@ func (ex *Exec) alloc(p *Path, hint string) string {
 
 // bornBefore records that a reference value read from the state existed before the current moment.
 func (ex *Exec) bornBefore(p *Path, ref string) {
-	if ref == "null" {
+	if ref == "null" || ex.noBirth > 0 {
+		// (inside an axiom or the definition of a recursive spec function there is no "now": the bound variables range
+		// over every value, including slices that hold objects allocated later)
 		return
 	}
 	ex.assumeFact(p, "(< ("+ex.birthFun()+" "+ref+") "+p.now+")")
